@@ -167,6 +167,13 @@ MECH = [
   W + "resolve_vector_dimension",
   "index every array of the mask (shifted by its own lower bound) or leave the WHERE untouched",
   ['resolve_vector_dimension:compile:IF-clause-at-requires-a-scalar-LOGICAL-expression']),
+ ("DependencyTransformation with a suffix containing upper-case letters and no ModuleWrap (include mode for free routines): "
+  "the interface header is written under the lower-cased routine name (fsub_t.intfb.h) while the caller's #include keeps the "
+  "suffix as given (fsub_T.intfb.h), so the renamed caller does not compile on a case-sensitive file system.",
+  "Scheduler project with a free kernel fsub called from a driver; DependencyTransformation(suffix='_T', include_path=..., "
+  "module_suffix=None) -> drvmod includes 'fsub_T.intfb.h', the file written is 'fsub_t.intfb.h'",
+  "lower-case the suffix consistently when building the include name (or write the header under the spelled name)",
+  ['sched:DependencyTransformation:compile:include-file-missing']),
 ]
 
 out = {'findings': []}
